@@ -16,7 +16,7 @@ META = {
                  "Compiler on each structure with symbolic numeric leaves; z3 decides that no value reaches a non-diagnostic exception",
     "bounds": "one to five statements; operand trees of depth <= 2 over 13 leaf kinds and all operators/brackets/prefixes/postfixes/calls; every "
               "instruction signature class and every directive; wrong operand kinds and counts; definitional cycles of length 1..3 through "
-              "assignments, labels and sizes; statements inside .repeat; numeric leaves: |v| <= 10^6, except in programs where a leaf can become a length, a count "
+              "assignments, labels and sizes; statements inside .repeat; numeric leaves: |v| <= 300 (branch fields and remainders are realised bit by bit), except in programs where a leaf can become a length, a count "
               "or a bit pattern: |v| <= 24",
     "outside": ["numbers of more than 4300 decimal digits (e.g. '1 << 20000.'): CPython refuses to print them, the value-out-of-bounds message "
                 "crashes; recorded as known finding C08-int-str-digits-limit and pinned by obligation huge/*",
@@ -96,7 +96,7 @@ def h_total(params, vals, ctx):
     text = params["text"]
     for v in ("V1", "V2"):
         if v in vals:
-            require(-params.get("vmax", 10 ** 6) <= vals[v] <= params.get("vmax", 10 ** 6))
+            require(-params.get("vmax", 300) <= vals[v] <= params.get("vmax", 300))
     o = assemble([("/w/a.mac", text)], vals, route=ctx.route, charset=params.get("charset", "bk"))
     ctx.observe_outcome(o)
     ctx.reach(True)
@@ -113,6 +113,8 @@ def _ob(tag, text, **kw):
         vars_ = {"V1": "int"}  # a dummy symbolic so that the obligation is still explored by the engine
     if any(m in text for m in COUNT_MARKS):
         kw.setdefault("vmax", 24)  # the value can become a length, a count or a realised bit pattern
+    if any(("\n" + m) in text for m in ("br ", "sob ", "trap ", "spl ", "mark ", "emt ")) and any(m in text for m in (" % ", " / ", " * ")):
+        kw["vmax"] = min(kw.get("vmax", 300), 24)  # an opcode field computed from a quotient/remainder is realised bit by bit through string theory
     if len(vars_) == 2 and any(m in text for m in (" & ", " ^ ", " | ", " ! ")):
         kw["vmax"] = 3  # both operands of a bitwise operator are realised
     if len(vars_) == 2 and any(m in text for m in (".align", ".blkb", ".blkw", ".repeat", ". =")):
